@@ -13,6 +13,7 @@ def run(run):
     nr = machine.check_random(run, FAMILY, 4000 if quick else 30000, "MachineRand: seeded random programs")
     run.cov["random_programs"] = nr
     n += nr
+    n += fixed_programs(run)
     n += env_traces(run, quick)
     run.cov["traces_validated_against_impl"] = n
     run.cov["evaluations"] = n
@@ -20,6 +21,33 @@ def run(run):
     run.cov["rule"] = "distinct programs (parameter tuples of MachineGen, and seeded random syntax trees of harness/proggen.py evaluated by MachineRand) whose model run terminated; each rendered and executed once"
     run.cov["exhaustive"] = True
     run.assumptions += machine.ASSUMPTIONS
+
+
+# "every call gets fresh parameter bindings ... defaults evaluated at call time": with values that can be changed
+# in place (Machine.tla's values cannot) - these few programs carry their expected results with them
+FIXED_PROGRAMS = [
+    ("def f(a = []) do append(a, 1); a end; [f(), f(), f([5])]", "[[1], [1], [5, 1]]"),
+    ("def f(k, m = <<<>>>) do m[k] = 1; m end; [f('x'), f('y')]", "[<<<'x' => 1>>>, <<<'y' => 1>>>]"),
+    ("def f(s = <<>>) do append(s, length(s)); s end; [f(), f()]", "[<<0>>, <<0>>]"),
+    ("def f(o = <*n = 0*>) do o->n = o->n + 1; o->n end; [f(), f()]", "[1, 1]"),
+    ("def mk() do def acc = []; fn(x) do append(acc, x); acc end end; def a = mk(); def b = mk(); a(1); b(2); [a(3), b(4)]",
+     "[[1, 3], [2, 4]]"),
+]
+
+
+def fixed_programs(run):
+    from ckl.interpreter import Interpreter
+    from . import absval
+    n = 0
+    for src, want in FIXED_PROGRAMS:
+        o = absval.outcome(lambda: Interpreter(True, False).interpret(src, "c03"))
+        w = absval.outcome(lambda: Interpreter(True, False).interpret(want, "c03"))
+        n += 1
+        if o[0] != "val" or w[0] != "val" or not absval.strict_eq(absval.to_py(o[1]), absval.to_py(w[1])):
+            got = absval.to_py(o[1]) if o[0] in ("val", "err") else o[1:]
+            run.violation("fixed:" + src, f"fresh-bindings: {src!r} should yield {want}, got {o[0]} {got!r}",
+                          {"kind": "fixed", "src": src, "want": want})
+    return n
 
 
 def env_traces(run, quick):
@@ -45,6 +73,16 @@ def env_traces(run, quick):
 
 
 def replay(run, case):
+    if case.get("kind") == "fixed":
+        global FIXED_PROGRAMS
+        keep = FIXED_PROGRAMS
+        FIXED_PROGRAMS = [(case["src"], case["want"])]
+        try:
+            fixed_programs(run)
+        finally:
+            FIXED_PROGRAMS = keep
+        run.sample(case)
+        return
     if case.get("kind") == "envtrace":
         from . import envtrace as et
         events, metas = et.record([(case["src"], True)])
